@@ -216,6 +216,21 @@ pid_t getpid(void) {
   return real();
 }
 
+pid_t getppid(void) {
+  static pid_t (*real)(void);
+  if (!real) real = dlsym(RTLD_NEXT, "getppid");
+  if (state == 1 && have_pid) return fake_pid / 2 + 1;
+  return real();
+}
+
+clock_t clock(void) {
+  static clock_t (*real)(void);
+  if (!real) real = dlsym(RTLD_NEXT, "clock");
+  if (!state) decide();
+  if (state != 1 || !have_clock) return real();
+  return (clock_t)(now() % 100000) * 1000;
+}
+
 int mkstemp(char *tmpl) {
   static int (*real)(char *);
   if (!real) real = dlsym(RTLD_NEXT, "mkstemp");
